@@ -8,6 +8,16 @@ HOOK_COMMITS = subprocess.run(
 
 # property -> (level, technique, level text, level note, design ref)
 CLAIMED = {
+ "C14": ("fault_enumeration",
+         "fault enumeration over the recorded requests of a fault-free split (object-store requests; catalog calls for the in-memory backend), each failed before / after effect, then crash + resume on fresh instances (up to 5 attempts), optional nested second interruption; virtual time; end-state, conservation and ordering oracle over the final catalog and the event log",
+         "Held on every interruption explored: per dataset EVERY request index of the fault-free split x both fault modes (the interruption space of that execution is enumerated completely), nested second interruptions sampled (quick) or enumerated over the first 12 requests of the resumed run (thorough), both catalog backends, datasets with rows below / at / above the split point (incl. a side without rows). End state must be two Active new shards partitioning the old range at the split point, old shard PendingDeletion, no split state, no progress file; rows(old) = rows(A) (+) rows(B) on the right sides, once; nothing of the old shard removed before the split state was gone.",
+         "A crash loses exactly the splitter's in-memory state; faults are whole-request (before / after effect); the ingester's concurrent dual writes are C15's subject, not driven here.",
+         "DESIGN.md section 3 C14"),
+ "C15": ("exploration",
+         "boundary observation of the shard id (recording catalog decorator), per-write catalog diff for routing; differential reads (QueryNode::query during the split vs DataFusion over the ingested rows) with an explained-by test against the physical table for the recorded duplication finding; input-level application of the feature-gated re-export of the private de-duplication routine",
+         "Routing held on every write explored (DualWrite and Backfill, rows below / at / above the split point, several series per (timestamp, metric), exact duplicates): chunks newly registered under new shard A hold exactly the rows with ts < sp, under B exactly ts >= sp. Reads: every deviation observed is exactly the answer of the same SQL over the physical table (ingested rows + double-written copies) - the recorded finding; any other deviation (row missing, wrong row, other aggregate) is reported as new. Input level: copies are suppressed, but distinct series sharing (timestamp, metric) are collapsed - recorded finding.",
+         "Int64 timestamps (the dual-write path refuses other types); DataFusion 44 as SQL reference; two known findings are recorded rather than repaired (a repair needs a new catalog call to exclude copies at chunk-selection time).",
+         "DESIGN.md section 3 C15"),
  "C11": ("exploration",
          "generated hostile statements submitted through every query interface of the real services (QueryNode::query, axum router /api/v1/sql GET+POST, Prometheus endpoints with hostile matchers, FlightSqlQueryService execute / flight info / prepare / do_get, query_stream); before/after monitor over object listing (path, size, ETag), catalog, scratch directory, session tables/settings and a fixed probe query",
          "Held on every (statement, interface) explored: COPY ... TO (existing chunk path, new path, catalog object, local file, file:// URL), CREATE TABLE AS, CREATE [OR REPLACE] VIEW (incl. redefining metrics), CREATE EXTERNAL TABLE, DROP TABLE, INSERT, SET, EXPLAIN ANALYZE COPY, EXPLAIN of DDL, multi-statement strings, smuggled through PromQL matchers; nothing in storage, catalog, session or probe answer may change and writing / redefining statements must come back as an error.",
